@@ -583,9 +583,9 @@ def shard_sweep(job):
     return s
 
 
-# cases per group in the quick tier (thorough: x25); heavier grammars get more, every group its own streams
-PLAN = {'primitive': 900, 'regex': 600, 'scalar': 900, 'string': 600, 'epath': 900, 'status': 300, 'typed': 1200,
-        'encapsulation': 600, 'command': 900, 'cpf_item': 1200, 'cpf': 900, 'cip': 600, 'service': 2400}
+# cases per group in the quick tier (thorough: x30); heavier grammars get more, every group its own streams
+PLAN = {'primitive': 600, 'regex': 300, 'scalar': 600, 'string': 450, 'epath': 600, 'status': 300, 'typed': 900,
+        'encapsulation': 450, 'command': 600, 'cpf_item': 900, 'cpf': 750, 'cip': 450, 'service': 1800}
 JOB = 300
 
 
@@ -610,7 +610,7 @@ def run(tier, seed):
     idx = 0
     for g in groups:
         sel = [n for n in names if cat.CATALOG[n].group == g]
-        total = PLAN[g] * (25 if thorough else 1)
+        total = PLAN[g] * (30 if thorough else 1)
         per = JOB * (5 if thorough else 1)
         while total > 0:
             jobs.append((seed, idx, min(per, total), sel))
